@@ -33,7 +33,7 @@ NG == Len(G[1].p)
 (* ---- monitor mode ---- *)
 StepMonFull(m0, n, e) ==
   LET k == e[1] prio2 == G[e[5]].p IN
-  IF k = 1 THEN (IF e[4] = 0 THEN m0 ELSE MonSelect(m0, e[4], prio2))
+  IF k = 1 THEN (IF e[4] = 0 THEN m0 ELSE MonSelect(m0, e[4], prio2, K))
   ELSE IF k = 7 THEN m0
   ELSE IF k = 2 /\ e[3] = G[n].p[e[2]] THEN m0
   ELSE MonPerturb(m0, KindName[k], e[2], prio2, K)
